@@ -332,6 +332,22 @@ func programs() []program {
 	})
 
 	// ---- bus
+	// a Send whose context ends on a listener that is not receiving still offers the event to the listeners after
+	// it, one of which is going away at that moment
+	add("bus/Send(its context ends)||later listener cancelled", func() {
+		b := &minibus.Bus{}
+		c1, cancel1 := context.WithCancel(bg)
+		_ = b.Listen(c1) // never receives
+		c2, cancel2 := context.WithCancel(bg)
+		ch2 := b.Listen(c2)
+		sctx, scancel := context.WithCancel(bg)
+		par(func() { b.Send(sctx, "e") }, func() { scancel() }, func() {
+			cancel2()
+			for range ch2 {
+			}
+		})
+		cancel1()
+	})
 	add("bus/Send||Send||Listen+cancel", func() {
 		b := &minibus.Bus{}
 		ctx, cancel := context.WithCancel(bg)
